@@ -148,6 +148,22 @@ def c06 (steps : List StepObs) (unsubAt : List (Option Nat)) : Option String := 
     i := i + 1
   return none
 
+/-! ### C10: a subject holds no observer whose subscription has ended (single-subject cases: every live
+    subscription accounts for exactly one registration), and none at all right after its terminal
+    (`termAt` marks the steps that call `error` / `complete` on it) -/
+def c10 (steps : List StepObs) (termAt : List Bool) : Option String := Id.run do
+  let mut i := 0
+  for st in steps do
+    if st.status == "ok" then
+      let held := st.counts.foldl (· + ·) 0
+      let live := (st.subs.filter id).length
+      if held > live then
+        return some s!"the subject holds {held} observers but only {live} subscriptions are live (step {i})"
+      if termAt.getD i false && held > 0 then
+        return some s!"the subject still holds an observer right after its terminal (step {i})"
+    i := i + 1
+  return none
+
 /-! ### C07: no deadlock, no livelock -/
 def c07 (steps : List StepObs) : Option String :=
   steps.findSome? fun st =>
